@@ -46,8 +46,13 @@ ENTRY = dict(
                    "implementation produced is checked in Coq against the structural hypotheses of the theorem (sample list = support "
                    "above the cut-off, coefficient = product within 1e-12*kappa, #circuits = #samples x #groups, projections "
                    "consistent, lookup shapes), the refusal rule is evaluated by the C10 model, and the returned numbers are compared "
-                   "(1e-7) with an independent state-vector simulation of the uncut circuit.",
-        level_note=STD_NOTE + "No axioms. THE WHOLE CHAIN generate (C05 model) ; exact sampler `run` ; reconstruct (C06 model) is covered by "
+                   "(tolerance 1e-10 * kappa, cap 1e-7) with an independent state-vector simulation of the uncut circuit.",
+        level_note=STD_NOTE + "VALUE TOLERANCE of the end-to-end comparison: 1e-10 * kappa (kappa = product over the cuts of sum|c|, >= 1), "
+                   "capped at 1e-7. Why: the oracle is exact to ~1e-14 and the pipeline's measured error on correct code is <= 6e-14; joint "
+                   "maps legitimately dropped below the 1e-14 cut-off cost at most (#maps) * 1e-14 * kappa <= 2.6e-11 * kappa "
+                   "(c01_subcutoff_partial); a defect that drops or mis-weights joint maps of probability up to 1e-8 costs 1e-10..1e-7 and "
+                   "is seen (stream weak_cuts: 2-3 cuts with |theta| in [1e-4, 1e-3]). The earlier flat 1e-7 hid such errors. "
+                   "No axioms. THE WHOLE CHAIN generate (C05 model) ; exact sampler `run` ; reconstruct (C06 model) is covered by "
                    "c01_generated_roundtrip_partial / _dict_partial / _single_partial: there the 'exact results' equation, the projection "
                    "lists (label suffixes of the one-qubit placeholders in circuit order, resp. identity), the result counts and the "
                    "coefficient-list shape are THEOREMS about the models (c01_generated_exact_results, c01_projection_lists, C05 core), "
